@@ -352,7 +352,9 @@ class SimHost:
     def _kick(self):
         if not self._pumping and self.sock._send_handlers:
             self._pumping = True
-            self.net.loop.call_later(self.PUMP, self._pump)
+            # just over the engine's own throttle interval (read from the library)
+            gap = 1.0 / float(type(self.sock)._SENDING_THROTTLE_RATE_PER_SECOND) + 0.0005
+            self.net.loop.call_later(gap, self._pump)
 
     def _pump(self):
         self._pumping = False
